@@ -26,7 +26,10 @@ Sels == { <<>>, <<M(APP, "eq", A)>>, <<M(APP, "neq", A)>>, <<M(S_container, "eq"
         \cup (IF Pools = "full" THEN { <<M(APP, "eq", <<>>)>>, <<[label |-> APP, op |-> "re", val |-> ReText(RAlt(RLit(97), RLit(98))), re |-> RAlt(RLit(97), RLit(98))]>> } ELSE {})
 Line(op, v) == [t |-> "line", op |-> op, val |-> v, re |-> REps]
 StagePool == { <<>>, <<Line("eq", <<45, 49>>)>>, <<Line("neq", <<99, 49>>)>>,
-               <<[t |-> "label", pred |-> [t |-> "m", label |-> APP, op |-> "eq", val |-> B, lit |-> <<>>, re |-> REps]]>> }
+               <<[t |-> "label", pred |-> [t |-> "m", label |-> APP, op |-> "eq", val |-> B, lit |-> <<>>, re |-> REps]]>>,
+               \* the printed container name is the value of the label `container` at the END of the pipeline
+               <<[t |-> "drop", labels |-> <<S_container>>, matchers |-> <<>>]>>,
+               <<[t |-> "keep", labels |-> <<APP>>, matchers |-> <<>>], Line("eq", <<45, 49>>)>> }
 Limits == IF Pools = "full" THEN {0 - 1, 1, 2, 3} ELSE {0 - 1, 2}
 OptsPool == IF Pools = "full" THEN {<<t, c, FALSE>> : t \in BOOLEAN, c \in BOOLEAN} \cup {<<TRUE, TRUE, TRUE>>} ELSE {<<TRUE, TRUE, FALSE>>, <<FALSE, FALSE, FALSE>>, <<TRUE, TRUE, TRUE>>}
 
@@ -35,11 +38,15 @@ vars == <<case, pc>>
 Init == /\ pc = "gen"
         /\ \E a1 \in (IF Pools = "full" THEN {A, B} ELSE {A}), a2 \in (IF Pools = "full" THEN {A, B, <<>>} ELSE {B, <<>>}),
               n1 \in (IF Pools = "full" THEN 0..3 ELSE {0, 2, 3}), n2 \in (IF Pools = "full" THEN 0..3 ELSE {0, 3}),
-              sel \in Sels, st \in StagePool, lm \in Limits, o \in OptsPool, point \in BOOLEAN :
+              sel \in Sels, st \in StagePool, lm \in Limits, o \in OptsPool, point \in BOOLEAN, since \in {0, 75}, metric \in BOOLEAN :
              \* point: the window is the single instant Base + 25, on which no frame lies - nothing may be printed
-             /\ (point => st = <<>> /\ lm = 0 - 1)
+             /\ (point => st = <<>> /\ lm = 0 - 1 /\ since = 0 /\ ~metric)
+             \* since: the window is [End - 75, End] given as --end and --since (frames at +30 and +40 fall inside, +10 and +20 outside)
+             /\ (since > 0 => lm = 0 - 1 /\ o = <<TRUE, TRUE, FALSE>>)
+             \* metric: the query is count_over_time(<the log query> [1m]) - the command must fail and print nothing
+             /\ (metric => since = 0 /\ lm = 0 - 1 /\ o = <<TRUE, TRUE, FALSE>> /\ st \in {<<>>, <<Line("eq", <<45, 49>>)>>})
              /\ case = [ctrs |-> <<Ctr(1, a1, n1), Ctr(2, a2, n2)>>, sel |-> sel, stages |-> st, start |-> IF point THEN <<Base + 25, 0>> ELSE Start,
-                         end |-> IF point THEN <<Base + 25, 0>> ELSE End, limit |-> lm, opts |-> o]
+                         end |-> IF point THEN <<Base + 25, 0>> ELSE End, limit |-> lm, opts |-> o, since |-> since, metric |-> metric]
 Export == pc = "gen" /\ pc' = "done" /\ UNCHANGED case /\ PrintT(<<"CASE", ToJson([in |-> case @@ [kind |-> "cmd"]])>>)
 Next == Export
 
@@ -48,13 +55,13 @@ Pr == Printed(case)
 Unlimited == Printed([case EXCEPT !.limit = 0 - 1])
 FromSelectedInWindow ==
   \A k \in DOMAIN Pr : \E i \in DS!Selected(case.ctrs, case.sel) : \E j \in DOMAIN case.ctrs[i].frames :
-     LET f == case.ctrs[i].frames[j] IN f.msg = Pr[k].msg /\ f.ts = Pr[k].ts /\ InWindow(f.ts, case.start, case.end) /\ Pr[k].ctr = case.ctrs[i].name
+     LET f == case.ctrs[i].frames[j] IN f.msg = Pr[k].msg /\ f.ts = Pr[k].ts /\ InWindow(f.ts, WStart(case), case.end) /\ (Pr[k].ctr = case.ctrs[i].name \/ (Pr[k].ctr = <<>> /\ \E s \in DOMAIN case.stages : case.stages[s].t \in {"drop", "keep"}))
 InTimeOrderOnce == \A k, m \in DOMAIN Pr : k < m => SysTsLt(Pr[k].ts, Pr[m].ts)
 LimitIsPrefix == IF case.limit > 0 /\ Len(Unlimited) > case.limit THEN Pr = SubSeq(Unlimited, 1, case.limit) ELSE Pr = Unlimited
 \* filter-then-merge = merge-then-filter (the stages of the pools are stateless)
 MergeCommutes ==
   LET sel == DS!Selected(case.ctrs, case.sel)
-      per(i) == LogResult(<<>>, case.stages, CtrRecords(case.ctrs, i, case.start, case.end))
+      per(i) == LogResult(<<>>, case.stages, CtrRecords(case.ctrs, i, WStart(case), case.end))
       ids == UNION {{per(i)[k].id : k \in DOMAIN per(i)} : i \in sel}
       all == LogResult(<<>>, case.stages, Merged(case))
   IN {all[k].id : k \in DOMAIN all} = ids
